@@ -212,6 +212,9 @@ def user_projection(sm, users):
     return rows
 
 
+LAND_MARGIN = 160     # a filler creates at most 6 * 7 = 42 (unit coefficients) / about 100 (coefficients 1..5) nodes
+
+
 def op_satgrow(op):
     """grow the process-wide diagram store by about op['nodes'] nodes: many small inequalities over fresh variables
     (the cheapest way, see harness/props/c07.py), the first of every 200 codified by a throw-away manager"""
@@ -222,7 +225,14 @@ def op_satgrow(op):
     r = random.Random(op["pyseed"])
     made, last, k, shrank = 0, len(pb.memory), 0, 0
     tm = None
-    while made < op["nodes"] and k < op["nodes"]:
+    upto = op.get("upto")
+    if upto is not None:
+        # EXACT landing: the store is left with exactly `upto` entries (the two terminals included) - fillers while more
+        # than LAND_MARGIN nodes are missing, then conjunctions of m <= 7 fresh variables (x1 + .. + xm >= m: a chain of
+        # exactly m nodes).  A tree that evicts nodes from the store may never get there: the work is capped
+        budget = max(0, upto - len(pb.memory)) + 8192
+    while (made < op["nodes"] and k < op["nodes"]) if upto is None else \
+            (upto - len(pb.memory) > LAND_MARGIN and made < budget):
         n = r.choice([6, 8, 8, 10, 12])
         e = Expr()
         if r.random() < 0.7:
@@ -249,6 +259,19 @@ def op_satgrow(op):
             made += now - last
         last = now
         k += 1
+    if upto is not None:
+        j = 0
+        while len(pb.memory) < upto and made < budget and j < 4 * LAND_MARGIN:
+            m = min(7, upto - len(pb.memory))
+            e = Expr()
+            for i in range(m):
+                e = e + Literal(f"{op['tag']}z{j}_{i}")
+            before = len(pb.memory)
+            (e >= m).getrobdd()
+            made += max(0, len(pb.memory) - before)
+            shrank += 1 if len(pb.memory) < before else 0
+            j += 1
+        return {"inequalities": k + j, "made": made, "shrank": shrank, "landed": len(pb.memory) == upto}
     return {"inequalities": k, "made": made, "shrank": shrank}
 
 
@@ -262,7 +285,7 @@ def op_sat(op):
     memlen0 = len(pb.memory)
     head_ok = list(pb.memory[:2]) == [0, 1]
     sm = SATManager()
-    status, norms = [], []
+    status, norms, memlens = [], [], []
     for p in op["posts"]:
         k = p["k"]
         norm = None
@@ -289,6 +312,7 @@ def op_sat(op):
             else:
                 status.append("X:" + type(e).__name__)
         norms.append(norm)
+        memlens.append(len(pb.memory))
     names = canon_nodes(pb)
     import re
 
@@ -296,7 +320,7 @@ def op_sat(op):
         m = re.fullmatch(r"robdd_(\d+)", v)
         return "robdd:" + names.get(int(m.group(1)), "?") if m else v
     raw = {"mem0": mem0, "newmem": [[str(x[0]), int(x[1]), int(x[2])] for x in pb.memory[memlen0:]], "big": big,
-           "memlen0": memlen0,
+           "memlen0": memlen0, "memlens": memlens,
            "clauses": [[[l.v, bool(l.s)] for l in c] for c in sm.clauses], "aux": sm.auxcount,
            "codified": [int(i) for i in sm.codified], "vtable": list(sm.vtable[1:]), "status": status,
            "norms": norms, "head_ok": head_ok,
@@ -508,8 +532,21 @@ def run_job(job, fork=True):
         trace.append({"digest": r["digest"], "after": r["after"], "raised": isinstance(unjson(r["obs"]), dict) and
                       (unjson(r["obs"]).get("raised") or unjson(r["obs"]).get("escaped"))})
     probes = []
-    for op in job.get("probes", []):
-        probes.append(in_child(lambda op=op: exec_op(op)) if fork else exec_op(op))
+    tails = job.get("tails") or [None] * len(job.get("probes", []))
+
+    def with_tail(op, tail):
+        # the last operations of the history are executed in the probe's own fork (histories that share all but
+        # their last operations are executed once)
+        tr = []
+        for t in tail or []:
+            r = exec_op(t)
+            tr.append({"digest": r["digest"], "after": r["after"], "obs": r["obs"]})
+        res = exec_op(op)
+        if tail:
+            res["tail"] = tr
+        return res
+    for op, tail in zip(job.get("probes", []), tails):
+        probes.append(in_child(lambda op=op, tail=tail: with_tail(op, tail)) if fork else with_tail(op, tail))
     return {"id": job.get("id"), "trace": trace, "probes": probes}
 
 
